@@ -35,6 +35,11 @@ fn retrievals(bufs: &[usize]) -> Vec<Step> {
             if !(kind == XKind::HardLink && fl == Fl::Async) {
                 v.push(Step { op: Op::Extract { kind, checked: true, by: By::Addr(a), dest: Dest::Absent }, fl });
             }
+            // copying over an existing (longer or shorter) destination file
+            if kind == XKind::Copy {
+                v.push(Step { op: Op::Extract { kind, checked: true, by: By::Key(0), dest: Dest::Existing }, fl });
+                v.push(Step { op: Op::Extract { kind, checked: true, by: By::Addr(a), dest: Dest::Existing }, fl });
+            }
             // a destination on another filesystem (a hard link cannot be made there)
             if kind != XKind::Reflink {
                 v.push(Step { op: Op::Extract { kind, checked: true, by: By::Key(0), dest: Dest::OtherFs }, fl });
